@@ -785,4 +785,469 @@ theorem wq_hold (w : Bool) (k : Nat) (hpc : (s.ths i).pc = .hold w k) (h : step_
     exact wq_plain s i _ hq (by simp [Inert, wparked, preSleep, seqOf, pendA, pendW]) (by simp [pendW, hpc]) (by simp [owing, hpc])
   · simp at h
 
+include hinv hq in
+theorem wq_unlock (w : Bool) (hpc : (s.ths i).pc = .unlock w) (h : step_unlock c s i (s.ths i) w e = some s') : WQ s' := by
+  have hlt := hinv.lt32
+  have hA : pendW (s.ths i).pc = false := by simp [pendW, hpc]
+  have hAa : pendA (s.ths i).pc = false := by simp [pendA, hpc]
+  have hO : owing (s.ths i).pc = false := by simp [owing, hpc]
+  unfold step_unlock at h
+  split at h
+  · rename_i v old
+    cases w
+    · -- reader
+      simp only [Bool.false_eq_true, if_false] at h
+      split at h
+      · simp at h
+      rename_i hcond
+      simp only [not_or, Decidable.not_not] at hcond
+      obtain ⟨ho, hv⟩ := hcond
+      cases h
+      subst ho hv
+      have hR : holdsR (s.ths i) = true := by simp [holdsR, hpc]
+      have hnow : ∀ j, holdsW (s.ths j) = false := by
+        intro j
+        cases hj : holdsW (s.ths j) with
+        | false => rfl
+        | true =>
+          have h0 := hinv.noRW ⟨j, hj⟩
+          have := nR_zero_no_reader s hinv h0 i
+          rw [hR] at this; cases this
+      have hnwl : cnt s.state ≠ WRITE_LOCKED := by
+        intro hh; obtain ⟨j, hj⟩ := hinv.wl.mp hh; rw [hnow j] at hj; cases hj
+      have hcntR := hinv.cntR hnwl
+      have hge1 : 1 ≤ cnt s.state := by
+        have : nR s ≠ 0 := by
+          intro h0; have := nR_zero_no_reader s hinv h0 i; rw [hR] at this; cases this
+        omega
+      obtain ⟨i1, i2, i3, i4, i5⟩ := inert_ite_wake ((isUnlocked (wsub s.state 1) && hasWW (wsub s.state 1)) = true) (wsub s.state 1)
+      have hbitk := hasWW_sub_one s.state (by simpa [cnt, RW] using hge1) (by simpa [TWO32] using hlt)
+      generalize hx : wsub s.state 1 = x at *
+      generalize hqq : (if (isUnlocked x && hasWW x) = true then wakeEntry x else Pc.idle) = q at *
+      refine wq_upd s _ i q ?_ ?_ ?_ hq ?_ ?_ ?_ ?_ ?_ ?_ ?_
+      · intro j hj; unfold rmwState; simp [setTh_ths, hj]
+      · unfold rmwState; simp
+      · unfold rmwState; simp [setTh]
+      · intro hb; left; unfold rmwState; simp; rw [hbitk]; exact hb
+      · intro hh; rw [i1] at hh; cases hh
+      · intro q' hh; rw [i2] at hh; cases hh
+      · intro q' hh; rw [i3] at hh; cases hh
+      · intro hh; rw [hAa] at hh; cases hh
+      · intro hh; rw [hA] at hh; cases hh
+      · intro hh; rw [hO] at hh; cases hh
+    · -- writer
+      simp only [if_true] at h
+      split at h
+      · simp at h
+      rename_i hcond
+      simp only [not_or, Decidable.not_not] at hcond
+      obtain ⟨ho, hv⟩ := hcond
+      cases h
+      subst ho hv
+      have hWi : holdsW (s.ths i) = true := by simp [holdsW, hpc]
+      have hwl : cnt s.state = WRITE_LOCKED := hinv.wl.mpr ⟨i, hWi⟩
+      obtain ⟨i1, i2, i3, i4, i5⟩ := inert_ite_wake ((hasWW (wsub s.state WRITE_LOCKED) || hasRW (wsub s.state WRITE_LOCKED)) = true) (wsub s.state WRITE_LOCKED)
+      have hbitk := hasWW_sub_WL s.state (by simpa [cnt, RW, WRITE_LOCKED] using hwl) (by simpa [TWO32] using hlt)
+      generalize hx : wsub s.state WRITE_LOCKED = x at *
+      generalize hqq : (if (hasWW x || hasRW x) = true then wakeEntry x else Pc.idle) = q at *
+      refine wq_upd s _ i q ?_ ?_ ?_ hq ?_ ?_ ?_ ?_ ?_ ?_ ?_
+      · intro j hj; unfold rmwState; simp [setTh_ths, hj]
+      · unfold rmwState; simp
+      · unfold rmwState; simp [setTh]
+      · intro hb; left; unfold rmwState; simp; rw [hbitk]; exact hb
+      · intro hh; rw [i1] at hh; cases hh
+      · intro q' hh; rw [i2] at hh; cases hh
+      · intro q' hh; rw [i3] at hh; cases hh
+      · intro hh; rw [hAa] at hh; cases hh
+      · intro hh; rw [hA] at hh; cases hh
+      · intro hh; rw [hO] at hh; cases hh
+  · simp at h
+
+include hq in
+theorem wq_kCasA (st : Nat) (hpc : (s.ths i).pc = .kCasA st) (h : step_kCasA c s i (s.ths i) st e = some s') : WQ s' := by
+  have hA : pendW (s.ths i).pc = false := by simp [pendW, hpc]
+  have hAa : pendA (s.ths i).pc = false := by simp [pendA, hpc]
+  have hO : owing (s.ths i).pc = false := by simp [owing, hpc]
+  unfold step_kCasA at h
+  split at h
+  · rename_i exp new r
+    split at h
+    · simp at h
+    · cases r with
+      | ok =>
+        simp only [] at h; cases h
+        refine wq_rmw s i _ _ _ _ hq (by simp [wparked]) ?_ ?_ ?_ ?_ ?_ ?_
+        · intro q hh; simp [preSleep] at hh
+        · intro q hh; simp [seqOf] at hh
+        · intro hh; rw [hAa] at hh; cases hh
+        · intro hh; rw [hA] at hh; cases hh
+        · intro hh; rw [hO] at hh; cases hh
+        · intro _; right; simp [pendA]
+      | fail o => simp only [] at h; cases h; exact wq_plain s i _ hq (inert_wakeAfterA _) hA hO
+      | spur o => simp only [] at h; cases h; exact wq_plain s i _ hq (inert_wakeAfterA _) hA hO
+  · simp at h
+
+include hq in
+theorem wq_kCasB (st : Nat) (hpc : (s.ths i).pc = .kCasB st) (h : step_kCasB c s i (s.ths i) st e = some s') : WQ s' := by
+  have hA : pendW (s.ths i).pc = false := by simp [pendW, hpc]
+  have hAa : pendA (s.ths i).pc = false := by simp [pendA, hpc]
+  have hO : owing (s.ths i).pc = false := by simp [owing, hpc]
+  have hidle : Inert Pc.idle := by simp [Inert, wparked, preSleep, seqOf, pendA, pendW]
+  unfold step_kCasB at h
+  split at h
+  · rename_i exp new r
+    split at h
+    · simp at h
+    · cases r with
+      | ok =>
+        simp only [] at h; cases h
+        refine wq_rmw s i _ _ _ _ hq (by simp [wparked]) ?_ ?_ ?_ ?_ ?_ ?_
+        · intro q hh; simp [preSleep] at hh
+        · intro q hh; simp [seqOf] at hh
+        · intro hh; rw [hAa] at hh; cases hh
+        · intro hh; rw [hA] at hh; cases hh
+        · intro hh; rw [hO] at hh; cases hh
+        · intro _; right; simp [pendA]
+      | fail o => simp only [] at h; cases h; exact wq_plain s i _ hq hidle hA hO
+      | spur o => simp only [] at h; cases h; exact wq_plain s i _ hq hidle hA hO
+  · simp at h
+
+include hq in
+theorem wq_kCasC (hpc : (s.ths i).pc = .kCasC) (h : step_kCasC c s i (s.ths i) e = some s') : WQ s' := by
+  have hA : pendW (s.ths i).pc = false := by simp [pendW, hpc]
+  have hO : owing (s.ths i).pc = false := by simp [owing, hpc]
+  have hidle : Inert Pc.idle := by simp [Inert, wparked, preSleep, seqOf, pendA, pendW]
+  unfold step_kCasC at h
+  split at h
+  · rename_i exp new r
+    split at h
+    · simp at h
+    · rename_i hcond
+      simp only [not_or, Decidable.not_not, Bool.not_eq_true', Bool.not_eq_false', Bool.not_eq_false] at hcond
+      obtain ⟨he, hn, hcc⟩ := hcond
+      cases r with
+      | ok =>
+        simp only [] at h; cases h
+        simp only [casConsistent, beq_iff_eq] at hcc
+        refine wq_plain_rmw s i _ _ _ _ hq (by simp [Inert, wparked, preSleep, seqOf, pendA, pendW]) hA hO ?_
+        intro hb; rw [hcc, he] at hb; simp [hasWW, RW, WW] at hb
+      | fail o => simp only [] at h; cases h; exact wq_plain s i _ hq hidle hA hO
+      | spur o => simp only [] at h; cases h; exact wq_plain s i _ hq hidle hA hO
+  · simp at h
+
+theorem preSleep_seqOf (pc : Pc) (q : Nat) (h : preSleep pc = some q) : seqOf pc = some q := by
+  cases pc <;> simp_all [preSleep, seqOf]
+
+theorem parkedOn1_eq (t : Th) : parkedOn t 1 = wparked t.pc := by
+  unfold parkedOn wparked; cases t.pc <;> simp
+
+include hq in
+theorem wq_kNotify (fb : Bool) (hnw : s.notify + 1 < TWO32)
+    (hpc : (s.ths i).pc = .kNotify fb) (h : step_kNotify c s i (s.ths i) fb e = some s') : WQ s' := by
+  unfold step_kNotify at h
+  split at h
+  · split at h
+    · simp at h
+    · cases h
+      have hnot : wadd s.notify 1 = s.notify + 1 := by unfold wadd; exact Nat.mod_eq_of_lt hnw
+      have hths : ∀ j, j ≠ i → ((setPc { s with notify := wadd s.notify 1 } i (.kWakeW fb)).ths j) = s.ths j := by
+        intro j hj; simp [setPc, setTh_ths, hj]
+      have hi' : ((setPc { s with notify := wadd s.notify 1 } i (.kWakeW fb)).ths i).pc = .kWakeW fb := by simp [setPc]
+      refine ⟨?_, ?_, ?_⟩
+      · intro _
+        exact Or.inr (Or.inl ⟨i, by rw [hi']; simp [pendW]⟩)
+      · intro j q hj hqn
+        exfalso
+        have hn' : (setPc { s with notify := wadd s.notify 1 } i (.kWakeW fb)).notify = s.notify + 1 := by simp [setPc, setTh, hnot]
+        rw [hn'] at hqn
+        by_cases hji : j = i
+        · subst hji; rw [hi'] at hj; simp [preSleep] at hj
+        · rw [hths j hji] at hj
+          have := hq.seqle j q (preSleep_seqOf _ _ hj)
+          omega
+      · intro j q hj
+        have hn' : (setPc { s with notify := wadd s.notify 1 } i (.kWakeW fb)).notify = s.notify + 1 := by simp [setPc, setTh, hnot]
+        rw [hn']
+        by_cases hji : j = i
+        · subst hji; rw [hi'] at hj; simp [seqOf] at hj
+        · rw [hths j hji] at hj
+          have := hq.seqle j q hj
+          omega
+  · simp at h
+
+/-! wake-ups -/
+
+theorem wokenPc_facts (c : Cfg) (p : Pc) :
+    (wparked (wokenPc c p) = false) ∧
+    (∀ q, preSleep (wokenPc c p) = some q → preSleep p = some q) ∧
+    (∀ q, seqOf (wokenPc c p) = some q → seqOf p = some q) ∧
+    (pendA (wokenPc c p) = pendA p) ∧ (pendW (wokenPc c p) = pendW p) ∧
+    (owing p = true → owing (wokenPc c p) = true) ∧
+    (wokenPc c (wokenPc c p) = wokenPc c p) := by
+  cases p <;> simp [wokenPc, wparked, preSleep, seqOf, pendA, pendW, owing]
+
+theorem wakeOne_notify (c : Cfg) (s : St) (j : Nat) : (wakeOne c s j).notify = s.notify := rfl
+
+theorem wakeAll_notify (c : Cfg) (s : St) (l : List Nat) : (wakeAll c s l).notify = s.notify := by
+  induction l generalizing s with
+  | nil => rfl
+  | cons k rest ih => simp only [wakeAll]; rw [ih]; rfl
+
+theorem wakeAll_pc (c : Cfg) (s : St) (l : List Nat) (k : Nat) :
+    ((wakeAll c s l).ths k).pc = (s.ths k).pc ∨ ((wakeAll c s l).ths k).pc = wokenPc c (s.ths k).pc := by
+  induction l generalizing s with
+  | nil => left; rfl
+  | cons j rest ih =>
+    simp only [wakeAll]
+    have h1 : ((wakeOne c s j).ths k).pc = (s.ths k).pc ∨ ((wakeOne c s j).ths k).pc = wokenPc c (s.ths k).pc := by
+      unfold wakeOne
+      by_cases hk : k = j
+      · subst hk; right; simp
+      · left; simp [setTh_ths, hk]
+    rcases ih (wakeOne c s j) with h2 | h2 <;> rcases h1 with h1 | h1
+    · left; rw [h2, h1]
+    · right; rw [h2, h1]
+    · right; rw [h2, h1]
+    · right; rw [h2, h1]; exact (wokenPc_facts c _).2.2.2.2.2.2
+
+theorem wq_wakeAll (c : Cfg) (s : St) (l : List Nat) (h : WQ s) : WQ (wakeAll c s l) := by
+  have hst := wakeAll_state c s l
+  have hnt := wakeAll_notify c s l
+  have hpcs := wakeAll_pc c s l
+  have fwp : ∀ k, wparked ((wakeAll c s l).ths k).pc = true → wparked (s.ths k).pc = true := by
+    intro k hk; rcases hpcs k with h1 | h1 <;> rw [h1] at hk
+    · exact hk
+    · rw [(wokenPc_facts c _).1] at hk; cases hk
+  have fpre : ∀ k q, preSleep ((wakeAll c s l).ths k).pc = some q → preSleep (s.ths k).pc = some q := by
+    intro k q hk; rcases hpcs k with h1 | h1 <;> rw [h1] at hk
+    · exact hk
+    · exact (wokenPc_facts c _).2.1 q hk
+  have fseq : ∀ k q, seqOf ((wakeAll c s l).ths k).pc = some q → seqOf (s.ths k).pc = some q := by
+    intro k q hk; rcases hpcs k with h1 | h1 <;> rw [h1] at hk
+    · exact hk
+    · exact (wokenPc_facts c _).2.2.1 q hk
+  have fA : ∀ k, pendA (s.ths k).pc = true → pendA ((wakeAll c s l).ths k).pc = true := by
+    intro k hk; rcases hpcs k with h1 | h1 <;> rw [h1]
+    · exact hk
+    · rw [(wokenPc_facts c _).2.2.2.1]; exact hk
+  have fW : ∀ k, pendW (s.ths k).pc = true → pendW ((wakeAll c s l).ths k).pc = true := by
+    intro k hk; rcases hpcs k with h1 | h1 <;> rw [h1]
+    · exact hk
+    · rw [(wokenPc_facts c _).2.2.2.2.1]; exact hk
+  have fO : ∀ k, owing (s.ths k).pc = true → owing ((wakeAll c s l).ths k).pc = true := by
+    intro k hk; rcases hpcs k with h1 | h1 <;> rw [h1]
+    · exact hk
+    · exact (wokenPc_facts c _).2.2.2.2.2.1 hk
+  have covA : CoverA s → CoverA (wakeAll c s l) := by
+    rintro (hb | ⟨k, hk⟩)
+    · left; rw [hst]; exact hb
+    · right; exact ⟨k, fA k hk⟩
+  have covP : CoverP s → CoverP (wakeAll c s l) := by
+    rintro (hb | ⟨k, hk⟩ | ⟨k, hk⟩)
+    · left; rw [hst]; exact hb
+    · right; left; exact ⟨k, fW k hk⟩
+    · right; right; exact ⟨k, fO k hk⟩
+  refine ⟨?_, ?_, ?_⟩
+  · rintro ⟨j, hj⟩; exact covP (h.park ⟨j, fwp j hj⟩)
+  · intro j q hj hqn; rw [hnt] at hqn; exact covA (h.pre j q (fpre j q hj) hqn)
+  · intro j q hj; rw [hnt]; exact h.seqle j q (fseq j q hj)
+
+/-- a waker that is not (any more) announcing moves on, while an awake owing writer exists -/
+theorem wq_drop (s : St) (i j : Nat) (pc' : Pc) (h : WQ s) (hi : Inert pc')
+    (hAi : pendA (s.ths i).pc = false) (hji : j ≠ i) (hoj : owing (s.ths j).pc = true) : WQ (setPc s i pc') := by
+  obtain ⟨i1, i2, i3, i4, i5⟩ := hi
+  have hths : ∀ k, k ≠ i → (setPc s i pc').ths k = s.ths k := by intro k hk; simp [setPc, setTh_ths, hk]
+  have hpi : ((setPc s i pc').ths i).pc = pc' := by simp [setPc]
+  have covA : CoverA s → CoverA (setPc s i pc') := by
+    rintro (hb | ⟨k, hk⟩)
+    · left; simpa [setPc] using hb
+    · by_cases hki : k = i
+      · subst hki; rw [hAi] at hk; cases hk
+      · right; exact ⟨k, by rw [hths k hki]; exact hk⟩
+  refine ⟨?_, ?_, ?_⟩
+  · intro _; exact Or.inr (Or.inr ⟨j, by rw [hths j hji]; exact hoj⟩)
+  · intro k q hk hqn
+    have hqn' : q = s.notify := by simpa [setPc] using hqn
+    by_cases hki : k = i
+    · subst hki; rw [hpi, i2] at hk; cases hk
+    · rw [hths k hki] at hk; exact covA (h.pre k q hk hqn')
+  · intro k q hk
+    have : (setPc s i pc').notify = s.notify := by simp [setPc]
+    rw [this]
+    by_cases hki : k = i
+    · subst hki; rw [hpi, i3] at hk; cases hk
+    · rw [hths k hki] at hk; exact h.seqle k q hk
+
+/-- a waker moves on while nobody sleeps on `writer_notify` -/
+theorem wq_drop_none (s : St) (i : Nat) (pc' : Pc) (h : WQ s) (hi : Inert pc')
+    (hAi : pendA (s.ths i).pc = false) (hnone : ∀ j, wparked (s.ths j).pc = false) : WQ (setPc s i pc') := by
+  obtain ⟨i1, i2, i3, i4, i5⟩ := hi
+  have hths : ∀ k, k ≠ i → (setPc s i pc').ths k = s.ths k := by intro k hk; simp [setPc, setTh_ths, hk]
+  have hpi : ((setPc s i pc').ths i).pc = pc' := by simp [setPc]
+  have covA : CoverA s → CoverA (setPc s i pc') := by
+    rintro (hb | ⟨k, hk⟩)
+    · left; simpa [setPc] using hb
+    · by_cases hki : k = i
+      · subst hki; rw [hAi] at hk; cases hk
+      · right; exact ⟨k, by rw [hths k hki]; exact hk⟩
+  refine ⟨?_, ?_, ?_⟩
+  · rintro ⟨k, hk⟩
+    exfalso
+    by_cases hki : k = i
+    · subst hki; rw [hpi, i1] at hk; cases hk
+    · rw [hths k hki, hnone k] at hk; cases hk
+  · intro k q hk hqn
+    have hqn' : q = s.notify := by simpa [setPc] using hqn
+    by_cases hki : k = i
+    · subst hki; rw [hpi, i2] at hk; cases hk
+    · rw [hths k hki] at hk; exact covA (h.pre k q hk hqn')
+  · intro k q hk
+    have : (setPc s i pc').notify = s.notify := by simp [setPc]
+    rw [this]
+    by_cases hki : k = i
+    · subst hki; rw [hpi, i3] at hk; cases hk
+    · rw [hths k hki] at hk; exact h.seqle k q hk
+
+include hinv hq in
+theorem wq_kWakeW (fb : Bool) (hpc : (s.ths i).pc = .kWakeW fb) (h : step_kWakeW c s i (s.ths i) fb e = some s') : WQ s' := by
+  have hAi : pendA (s.ths i).pc = false := by simp [pendA, hpc]
+  unfold step_kWakeW at h
+  split at h
+  · rename_i num woken
+    split at h
+    · simp at h
+    · simp only [] at h
+      split at h
+      · split at h
+        · rename_i hemp
+          cases h
+          have hnone : ∀ j, wparked (s.ths j).pc = false := by
+            intro j
+            cases hw : wparked (s.ths j).pc with
+            | false => rfl
+            | true =>
+              exfalso
+              have hjn : j < s.n := by
+                by_cases hh : j < s.n
+                · exact hh
+                · have := hinv.outside j (by omega); rw [this] at hw; simp [wparked] at hw
+              have hmem : j ∈ parkedList s 1 := (parkedList_mem s 1 j).mpr ⟨hjn, by rw [parkedOn1_eq]; exact hw⟩
+              have : parkedList s 1 = [] := by simpa using hemp
+              rw [this] at hmem; cases hmem
+          refine wq_drop_none s i _ hq ?_ hAi hnone
+          split <;> simp [Inert, wparked, preSleep, seqOf, pendA, pendW]
+        · simp at h
+      · rename_i j
+        split at h
+        · rename_i hmem
+          cases h
+          have hmem' : j ∈ parkedList s 1 := by simpa using hmem
+          obtain ⟨hjn, hpj⟩ := (parkedList_mem s 1 j).mp hmem'
+          rw [parkedOn1_eq] at hpj
+          have hji : j ≠ i := by
+            intro hh; subst hh; rw [hpc] at hpj; simp [wparked] at hpj
+          have h2 := wq_wakeAll c s [j] hq
+          have hpi2 : ((wakeAll c s [j]).ths i).pc = .kWakeW fb := by
+            rcases wakeAll_pc c s [j] i with h1 | h1 <;> rw [h1, hpc]
+            simp [wokenPc]
+          have hpj2 : owing ((wakeAll c s [j]).ths j).pc = true := by
+            have : ((wakeAll c s [j]).ths j).pc = wokenPc c (s.ths j).pc := by simp [wakeAll, wakeOne]
+            rw [this]
+            cases hp : (s.ths j).pc <;> simp_all [wparked, wokenPc, owing]
+          exact wq_drop (wakeAll c s [j]) i j .idle h2 (by simp [Inert, wparked, preSleep, seqOf, pendA, pendW])
+            (by rw [hpi2]; simp [pendA]) hji hpj2
+        · simp at h
+      · simp at h
+  · simp at h
+
+include hq in
+theorem wq_kWakeR (hpc : (s.ths i).pc = .kWakeR) (h : step_kWakeR c s i (s.ths i) e = some s') : WQ s' := by
+  unfold step_kWakeR at h
+  split at h
+  · rename_i num woken
+    split at h
+    · simp at h
+    · simp only [] at h
+      split at h
+      · simp at h
+      · cases h
+        have h2 := wq_wakeAll c s woken hq
+        have hpi2 : ((wakeAll c s woken).ths i).pc = .kWakeR := by
+          rcases wakeAll_pc c s woken i with h1 | h1 <;> rw [h1, hpc]
+          simp [wokenPc]
+        exact wq_plain (wakeAll c s woken) i .idle h2 (by simp [Inert, wparked, preSleep, seqOf, pendA, pendW])
+          (by rw [hpi2]; simp [pendW]) (by rw [hpi2]; simp [owing])
+  · simp at h
+
+include hq in
+theorem wq_idle (hpc : (s.ths i).pc = .idle) (h : step_idle c s i (s.ths i) e = some s') : WQ s' := by
+  unfold step_idle at h
+  split at h
+  · rename_i k
+    split at h
+    · split at h
+      · simp at h
+      · cases h
+        exact wq_plain s i _ hq (by cases k <;> simp [Inert, wparked, preSleep, seqOf, pendA, pendW]) (by simp [pendW, hpc]) (by simp [owing, hpc])
+    · simp at h
+  · simp at h
+
+/-- **every step of the restricted relation preserves the writer-queue invariant** -/
+theorem step_wq (c : Cfg) (s s' : St) (i : Nat) (e : Ev) (h : stepW c s i e = some s') (hinv : RInv s) (hq : WQ s) : WQ s' := by
+  have hstep := stepW_step c s s' i e h
+  unfold step at hstep
+  split at hstep
+  · simp at hstep
+  · rename_i hi
+    simp only [] at hstep
+    cases hpc : (s.ths i).pc <;> simp only [hpc] at hstep
+    case idle => exact wq_idle c s s' i e hq hpc hstep
+    case rLoad => exact wq_rLoad c s s' i e hq hpc hstep
+    case rFastCas st => exact wq_rFastCas c s s' i e hinv hq st hpc hstep
+    case rSpin n => exact wq_rSpin c s s' i e hq n hpc hstep
+    case rCas st => exact wq_rCas c s s' i e hinv hq st hpc hstep
+    case rSetWait st => exact wq_rSetWait c s s' i e hinv hq st hpc hstep
+    case rWaitLoad ex => exact wq_rWaitLoad c s s' i e hq ex hpc hstep
+    case rWaitSys ex => exact wq_rWaitSys c s s' i e hq ex hpc hstep
+    case rParked ex => exact wq_rParked c s s' i e hq ex hpc hstep
+    case tLoad w => exact wq_tLoad c s s' i e hq w hpc hstep
+    case tCas w st => exact wq_tCas c s s' i e hinv hq w st hpc hstep
+    case tryFailed => exact wq_tryFailed c s s' i e hq hpc hstep
+    case wFastCas => exact wq_wFastCas c s s' i e hinv hq hpc hstep
+    case wSpin n oww => exact wq_wSpin c s s' i e hq n oww hpc hstep
+    case wCas st oww => exact wq_wCas c s s' i e hinv hq st oww hpc hstep
+    case wSetWait st oww => exact wq_wSetWait c s s' i e hinv hq st oww hpc hstep
+    case wSeqLoad =>
+      refine wq_wSeqLoad c s s' i e hq ?_ hpc hstep
+      intro v hv; subst hv
+      unfold stepW at h; simp only [hpc] at h
+      split at h
+      · assumption
+      · simp at h
+    case wStateLoad seq =>
+      refine wq_wStateLoad c s s' i e hq seq ?_ hpc hstep
+      intro v hv; subst hv
+      unfold stepW at h; simp only [hpc] at h
+      split at h
+      · assumption
+      · simp at h
+    case wWaitLoad seq => exact wq_wWaitLoad c s s' i e hq seq hpc hstep
+    case wWaitSys seq => exact wq_wWaitSys c s s' i e hq seq hpc hstep
+    case wParked seq => exact wq_wParked c s s' i e hq seq hpc hstep
+    case acquired w => exact wq_acquired c s s' i e hq w hpc hstep
+    case hold w k => exact wq_hold c s s' i e hq w k hpc hstep
+    case unlock w => exact wq_unlock c s s' i e hinv hq w hpc hstep
+    case kCasA st => exact wq_kCasA c s s' i e hq st hpc hstep
+    case kCasB st => exact wq_kCasB c s s' i e hq st hpc hstep
+    case kNotify fb =>
+      refine wq_kNotify c s s' i e hq fb ?_ hpc hstep
+      unfold stepW at h; simp only [hpc] at h
+      split at h
+      · assumption
+      · simp at h
+    case kWakeW fb => exact wq_kWakeW c s s' i e hinv hq fb hpc hstep
+    case kCasC => exact wq_kCasC c s s' i e hq hpc hstep
+    case kWakeR => exact wq_kWakeR c s s' i e hq hpc hstep
+    case panicked => simp at hstep
+
 end TinyVerif.RwLock
